@@ -171,6 +171,8 @@ def run(repo: Repo, rep: Report, tier: str) -> None:
     from ..core.report import Only
     from . import c19 as _c19
     _c19._declared_hook(repo, Only(rep, {"R19.4"}))
+    from ..core import siblings as _sib2
+    _sib2.check_own_method_tests(repo, rep, "R14.11")
 
 def _read_before_install(repo: Repo, rep: Report) -> None:
     """R15.9: the codec (non-nailed) branch of pack_dataclass / unpack_dataclass binds the nested class's compiled
@@ -312,3 +314,6 @@ def _aliases(repo: Repo, rep: Report) -> None:
 _ADDENDUM = ' R15.8: direction discipline (as R08.6). Borrowed: R19.4 (hooks are looked up on the class, not on the attrs holder, so the codec path runs them too).'
 EXPLANATION += _ADDENDUM
 LEVEL_TEXT += _ADDENDUM
+_ADD6 = ' Borrowed: R14.11.'
+EXPLANATION += _ADD6
+LEVEL_TEXT += _ADD6
